@@ -162,7 +162,7 @@ Section Ops.
     | JNum (NInt z) => vnum (negate_int z)
     | JNum (NFlt f) => vflt (fneg f)
     | JNum (NBig z) => vnum (NBig (- z))
-    | JNum (NLit t) => match t with 45%N :: r => vnum (NLit r) | _ => vnum (NLit (45%N :: t)) end
+    | JNum (NLit t) => if starts_minus t then vnum (NLit (tl t)) else vnum (NLit (45%N :: t))
     | _ => Err EUnaryType
     end.
 
